@@ -37,6 +37,7 @@ from happysimulator.components.sync.mutex import Mutex
 from happysimulator.core.clock import Clock
 from happysimulator.core.entity import Entity
 from happysimulator.core.event import Event
+from happysimulator.core.sim_future import SimFuture
 
 logger = logging.getLogger(__name__)
 
@@ -123,7 +124,7 @@ class Condition(Entity):
         """Number of threads waiting on this condition."""
         return len(self._waiters)
 
-    def wait(self) -> Generator[float]:
+    def wait(self) -> Generator[float | SimFuture]:
         """Wait for the condition to be signaled.
 
         Atomically releases the associated mutex, waits for a signal,
@@ -152,9 +153,11 @@ class Condition(Entity):
 
         # Set up wakeup callback
         woken = [False]
+        wake = SimFuture()
 
         def on_wake():
             woken[0] = True
+            wake.resolve()
 
         waiter = _Waiter(callback=on_wake, enqueue_time_ns=enqueue_time)
         self._waiters.append(waiter)
@@ -162,9 +165,9 @@ class Condition(Entity):
         # Release the mutex (this may wake other waiters on the mutex)
         self._lock.release()
 
-        # Wait for signal
+        # Park until signalled: a waiting process consumes no simulated activity
         while not woken[0]:
-            yield 0.0
+            yield wake
 
         # Reacquire the mutex
         yield from self._lock.acquire()
@@ -177,7 +180,7 @@ class Condition(Entity):
         self,
         predicate: Callable[[], bool],
         timeout: float | None = None,
-    ) -> Generator[float, None, bool]:
+    ) -> Generator[float | SimFuture, None, bool]:
         """Wait for a predicate to become true.
 
         A convenience method that handles the wait loop automatically.
